@@ -39,10 +39,12 @@ RUNS = {
     ],
     "C15": [
         {"name": "K4-session-faults", "mode": "k4", "budget": (6000, 150000), "nontrivial": r"r:Error=(14|5|2|13|17|20|28|30|11|39|61)\b", "keyfn": "k4", "monitor": "lifecycle"},
+        {"name": "K7-scenarios", "mode": "k7scen", "budget": (8, 150), "nontrivial": r".", "keyfn": "k7scen"},
     ],
     "C13": [
         {"name": "K4-read-boundaries", "mode": "k13", "budget": (150, 4000), "nontrivial": r"^rtyp=(117|41) ", "keyfn": "k4"},
         {"name": "K6-client-sizing", "mode": "kneg", "budget": (1500, 30000), "nontrivial": r"ok=1", "keyfn": "generic"},
+        {"name": "K4-requests-above-4MiB", "mode": "k13big", "budget": (40, 1200), "nontrivial": r"rlen=41943", "keyfn": "generic"},
     ],
     "C18": [
         {"name": "K1-recycling-histories", "mode": "k18", "budget": (1500, 40000), "nontrivial": r"recv1=msg", "keyfn": "k2"},
@@ -58,6 +60,7 @@ RUNS = {
     "C10": [
         {"name": "K6-pool", "mode": "kpool", "budget": (3000, 100000), "nontrivial": r"x", "keyfn": "generic"},
         {"name": "K6-mux", "mode": "kmux", "budget": (600, 15000), "nontrivial": r".", "keyfn": "generic"},
+        {"name": "K6-fid-in-flight", "mode": "kmuxfid", "budget": (60, 2000), "nontrivial": r"formed=1", "keyfn": "generic"},
     ],
     "C06": [
         {"name": "K7-tags", "mode": "k7tags", "budget": (120, 3000), "nontrivial": r"missing=0", "keyfn": "generic"},
@@ -68,7 +71,7 @@ RUNS = {
         {"name": "K7-tags-race", "mode": "k7tags", "budget": (0, 300), "nontrivial": r"missing=0", "keyfn": "generic", "race": True, "tiers": ["thorough"]},
     ],
     "C07": [
-        {"name": "K7-pairs", "mode": "k7pair", "budget": (968, 2904), "nontrivial": r"overlap=0", "keyfn": "k7pair"},
+        {"name": "K7-pairs", "mode": "k7pair", "budget": (1058, 3174), "nontrivial": r"overlap=0", "keyfn": "k7pair"},
         {"name": "K7-scenarios", "mode": "k7scen", "budget": (8, 150), "nontrivial": r".", "keyfn": "k7scen"},
     ],
     "C14": [
